@@ -153,6 +153,7 @@ func eval(c Case) (out Outcome) {
 	undoRedoRan := false
 	consecUndo, maxNest := 0, 0 // effective undos in a row (no edit/redo in between)
 	redoAfterNest := false
+	redosAfterAll := -1 // redos executed since an undo emptied the undo stack (-1: not in that situation)
 	kinds := map[string]bool{}
 	depthRedo := 0
 	fail := func(f *kit.Failure) Outcome {
@@ -204,16 +205,16 @@ func eval(c Case) (out Outcome) {
 				out.Ev["undo_skipped_at_setup_entry"]++
 				continue
 			}
-			if !kit.NoExclusions() {
+			{
 				top := d.RedoStackTopForTest()
 				if isUndo {
 					top = d.UndoStackTopForTest()
 				}
-				if c.PeerGC && !e.noPeerGC && entryHasObjectSet(top) {
+				if excluding("F6") && c.PeerGC && !e.noPeerGC && entryHasObjectSet(top) {
 					e.noPeerGC = true
 					out.Ev["excluded:F6"]++
 				}
-				if !e.peerOff && entrySetsNonEmptyText(top) {
+				if excluding("C14a") && !e.peerOff && entrySetsNonEmptyText(top) {
 					e.peerOff = true
 					out.Ev["excluded:C14a"]++
 				}
@@ -278,6 +279,10 @@ func eval(c Case) (out Outcome) {
 					}
 				}
 				consecUndo++
+				redosAfterAll = -1
+				if len(undo) == 0 {
+					redosAfterAll = 0 // everything undone: the real undo stack is empty
+				}
 				maxNest = max(maxNest, consecUndo)
 				kinds[en.kind] = true
 				depthRedo = max(depthRedo, len(redo))
@@ -304,6 +309,15 @@ func eval(c Case) (out Outcome) {
 					redoAfterNest = true
 				}
 				consecUndo = 0
+				if redosAfterAll >= 0 {
+					redosAfterAll++
+					if redosAfterAll >= 2 {
+						out.Ev["undo_all_then_redo>=2"] = 1
+						if c.Who%2 == 1 {
+							out.Ev["undo_all_then_redo>=2_on_received_containers"] = 1
+						}
+					}
+				}
 			}
 		default:
 			if content && !isContentOp(s.Op) {
@@ -331,6 +345,7 @@ func eval(c Case) (out Outcome) {
 				return out
 			}
 			consecUndo = 0
+			redosAfterAll = -1
 			k := kindOf(s.Op)
 			out.Ev["edit_"+k]++
 			changed := before != after
